@@ -129,11 +129,13 @@ class Run(object):
     def exhaustive(self, what):
         self.exhaustive_parts.append(what)
 
-    GUARD_SECONDS = 20       # no single library call of any driver takes more than a fraction of a second on a correct tree
+    GUARD_SECONDS = 20       # CPU seconds per library call; the largest layouts the drivers generate (184 labels in 92 layers) need 9 s
 
-    def guard(self, fn, clause, inp):
+    def guard(self, fn, clause, inp, calls=1):
         """Run fn(); an exception is a violation of `clause` (exception freedom), and so is a call that does not return
-        within GUARD_SECONDS (a library call that hangs must end in a VIOLATION with its input, not in a driver timeout)."""
+        within GUARD_SECONDS of CPU time per library call it makes (`calls`: how many layouts/exports fn performs; a library
+        call that hangs must end in a VIOLATION with its input, not in a driver timeout).  CPU time of this process, not wall
+        time: the verdict must not depend on how busy the machine is (a 184-label, 92-layer layout needs 9 s of CPU)."""
         import signal
 
         class _Hang(BaseException):
@@ -141,15 +143,16 @@ class Run(object):
 
         def on_alarm(signum, frame):
             raise _Hang()
-        use_alarm = hasattr(signal, "setitimer") and signal.getsignal(signal.SIGALRM) in (signal.SIG_DFL, None, signal.SIG_IGN)
+        use_alarm = hasattr(signal, "setitimer") and signal.getsignal(signal.SIGVTALRM) in (signal.SIG_DFL, None, signal.SIG_IGN)
         old = None
+        limit = self.GUARD_SECONDS * max(1, calls)
         if use_alarm:
-            old = signal.signal(signal.SIGALRM, on_alarm)
-            signal.setitimer(signal.ITIMER_REAL, self.GUARD_SECONDS)
+            old = signal.signal(signal.SIGVTALRM, on_alarm)
+            signal.setitimer(signal.ITIMER_VIRTUAL, limit)
         try:
             return True, fn()
         except _Hang:
-            self.violation(clause, inp, "did not return within %d s" % self.GUARD_SECONDS)
+            self.violation(clause, inp, "did not return within %d s of CPU time" % limit)
             self.hangs = getattr(self, "hangs", 0) + 1
             if self.hangs >= 2:
                 # every further hang would cost GUARD_SECONDS: stop exploring, report what was found
@@ -164,8 +167,8 @@ class Run(object):
             return False, None
         finally:
             if use_alarm:
-                signal.setitimer(signal.ITIMER_REAL, 0)
-                signal.signal(signal.SIGALRM, old if old is not None else signal.SIG_DFL)
+                signal.setitimer(signal.ITIMER_VIRTUAL, 0)
+                signal.signal(signal.SIGVTALRM, old if old is not None else signal.SIG_DFL)
 
     def finish(self):
         out = {
